@@ -17,7 +17,7 @@ def is_nontrivial(script):
     return script.count("lq_push") >= 2 and ("lq_head" in script or "lq_drain" in script)
 
 
-def main(rep, pid=PID, handler_style=False):
+def main(rep, pid=PID, handler_style=False, extra=None):
     exe_impl, exe_model = vlib.prepare(rep, tag=pid)
     found = False
     if exe_impl:
@@ -63,10 +63,9 @@ def main(rep, pid=PID, handler_style=False):
         if diverged and not found:
             cid, script, il, ml = diverged[0]
             # the theorems are about the model: a behaviour that differs from it is no longer covered
-            rep.violation("correspondence", {"case": cid, "script": script.split("\n"), "implementation": il, "model": ml,
-                                             "what": "implementation and model differ on %d case(s); the property's monitor found no failing input" % len(diverged),
-                                             "broken": "correspondence linq driver (projection: every output line)"}, found_input=False)
-            found = True
+            rep.defer_divergence({"case": cid, "script": script.split("\n"), "implementation": il, "model": ml,
+                                  "what": "implementation and model differ on %d case(s); the property's monitor found no failing input" % len(diverged),
+                                  "broken": "correspondence linq driver (projection: every output line)"})
         rep.cov["traces_validated_against_impl"] = validated
         # known finding F8 (API level): un-normal paths do not round-trip
         kf = [k for k in vlib.known_findings().get("open", []) if k["property"] == pid]
@@ -90,6 +89,8 @@ def main(rep, pid=PID, handler_style=False):
             if not found:
                 rep.violation("driver", {"what": p}, found_input=False)
                 found = True
+    if extra and exe_impl and not found:
+        found = extra(rep, exe_impl, exe_model) or found
     vlib.conclude_proofs(rep, found)
 
 
